@@ -453,6 +453,11 @@ def read_iso(img):
     if 'pvd' in res:
         res['root'] = read_tree(im, res['pvd'])
         im.susp_skip = susp_skip(im, res['root'])
+        # ECMA-119 6.8.2.1: the hierarchy has at most eight levels, the root being level 1 (ISO 9660:1999 images, which announce
+        # themselves with an enhanced volume descriptor of version 2, are exempt)
+        levels = 1 + max(path.count(b'/') for d, parent, path in res['root'].dirs_in_order)
+        if levels > 8 and not any(s['version'] == 2 for s in res['svds']):
+            im.bad('directory hierarchy of %d levels (ECMA-119 allows eight)' % levels)
     return im, res
 
 
